@@ -9,6 +9,9 @@ import Pysmi.Model.Oid
 import Pysmi.Model.Symtab
 import Pysmi.Model.Syntax
 import Pysmi.Model.Struct
+import Pysmi.Model.Lexer
+import Pysmi.Generated.LexTables
+import Pysmi.Model.LR
 /-!
 Line-protocol driver: one JSON object per input line, one JSON value per output line.
 Imports only the import-free model files and `Lean.Data.Json`.
@@ -532,6 +535,163 @@ def opStruct (j : Json) : Except String Json := do
     ("nodes", .arr (nodes.map (fun p => Json.str (nt (nodeType rows cols p.1 p.2)))).toArray)]
 end St
 
+/-! ### op: lex -/
+namespace Lx
+open Pysmi.Lexer
+
+def cfgOf (variant : String) : Cfg :=
+  let (r, f) := if variant == "v1" then (Pysmi.Generated.Lex.reservedV1, Pysmi.Generated.Lex.forbiddenV1)
+                else (Pysmi.Generated.Lex.reservedV2, Pysmi.Generated.Lex.forbiddenV2)
+  { reserved := r.map (fun p => (p.1.toList, p.2)), forbidden := f.map (·.toList),
+    u32 := Pysmi.Generated.Lex.u32max, u64 := Pysmi.Generated.Lex.u64max,
+    macroErrorRule := Pysmi.Generated.Lex.macroErrorRule }
+
+def textOf (j : Json) : Except String (List Char) := do
+  let cps ← getList (fun x => x.getNat?) j
+  return cps.map Char.ofNat
+
+def jTok (t : Tok) : Json :=
+  .arr #[.str t.ty, (match t.val with
+    | .str s => Json.arr (s.map (fun c => (c.toNat : Json))).toArray
+    | .int v => .num (Lean.JsonNumber.fromInt v)), t.line]
+
+def opLex (j : Json) : Except String Json := do
+  let variant ← (← j.getObjVal? "variant").getStr?
+  let text ← textOf (← j.getObjVal? "text")
+  match lexAll (cfgOf variant) text with
+  | .ok toks => return Json.mkObj [("tokens", .arr (toks.map jTok).toArray)]
+  | .error (.err k line) => return Json.mkObj [("error", .str (match k with | .lexer => "lexer" | .plyLexError => "plylexerror")), ("line", line)]
+  | .error .outOfFuel => return Json.mkObj [("error", .str "fuel")]
+end Lx
+
+/-! ### ops: tables (load a parser export) / parse -/
+namespace Pr
+open Pysmi.Py Pysmi.LR
+
+partial def expr (j : Json) : Except String Expr :=
+  match j with
+  | .null => pure .none
+  | .bool b => pure (.bool b)
+  | .num _ => do return .int (← j.getInt?)
+  | .obj _ => do
+    let get (k : String) := j.getObjVal? k
+    if let .ok v := get "s" then return .str (← v.getStr?)
+    if let .ok v := get "p" then return .p (← v.getNat?)
+    if let .ok v := get "v" then return .var (← v.getStr?)
+    if let .ok v := get "e" then return (← expr v)
+    let two (v : Json) : Except String (Expr × Expr) := do
+      match (← v.getArr?).toList with
+      | [a, b] => return (← expr a, ← expr b)
+      | _ => throw "expected two operands"
+    if let .ok v := get "idx" then let (a, b) ← two v; return .index a b
+    if let .ok v := get "add" then let (a, b) ← two v; return .add a b
+    if let .ok v := get "and" then let (a, b) ← two v; return .and a b
+    if let .ok v := get "or" then let (a, b) ← two v; return .or a b
+    if let .ok v := get "eq" then let (a, b) ← two v; return .eq a b
+    if let .ok v := get "ne" then let (a, b) ← two v; return .ne a b
+    if let .ok v := get "not" then return .not (← expr v)
+    if let .ok v := get "len" then return .len (← expr v)
+    if let .ok v := get "istuple" then return .isTuple (← expr v)
+    if let .ok v := get "isnone" then return .isNone (← expr v)
+    if let .ok v := get "t" then return .tuple (← (← v.getArr?).toList.mapM expr)
+    if let .ok v := get "l" then return .list (← (← v.getArr?).toList.mapM expr)
+    if let .ok v := get "sl" then
+      match (← v.getArr?).toList with
+      | [e, lo, hi] =>
+        let o (x : Json) : Except String (Option Expr) := match x with | .null => pure none | y => do return some (← expr y)
+        return .slice (← expr e) (← o lo) (← o hi)
+      | _ => throw "bad slice"
+    throw s!"bad expr {j.compress}"
+  | _ => throw s!"bad expr {j.compress}"
+
+partial def stmt (j : Json) : Except String Stmt :=
+  match j with
+  | .str "pass" => pure .pass
+  | .obj _ => do
+    if let .ok v := j.getObjVal? "p0" then return .setP0 (← expr v)
+    if let .ok v := j.getObjVal? "as" then
+      match (← v.getArr?).toList with
+      | [n, e] => return .assign (← n.getStr?) (← expr e)
+      | _ => throw "bad assign"
+    if let .ok v := j.getObjVal? "aug" then
+      match (← v.getArr?).toList with
+      | [n, e] => return .augAdd (← n.getStr?) (← expr e)
+      | _ => throw "bad aug"
+    if let .ok v := j.getObjVal? "if" then
+      match (← v.getArr?).toList with
+      | [c, t, f] => return .ite (← expr c) (← (← t.getArr?).toList.mapM stmt) (← (← f.getArr?).toList.mapM stmt)
+      | _ => throw "bad if"
+    throw "bad stmt"
+  | _ => throw "bad stmt"
+
+structure Loaded where
+  tables : Tables
+  actions : Actions
+
+def symTable {α} (rows : List (Nat × List (String × α))) (n : Nat) : Array (List (String × α)) :=
+  rows.foldl (fun a r => if r.1 < a.size then a.set! r.1 r.2 else a) (Array.replicate n [])
+
+def load (j : Json) : Except String Loaded := do
+  let prods ← getList (fun r => do
+    match (← r.getArr?).toList with
+    | [l, rhs, f] => return ({ lhs := ← l.getStr?, rhs := ← getList (fun x => x.getStr?) rhs, func := ← f.getStr? } : Rule)
+    | _ => throw "bad production") (← j.getObjVal? "prods")
+  let rows {α} (name : String) (f : Json → Except String α) : Except String (List (Nat × List (String × α))) := do
+    getList (fun r => do
+      match (← r.getArr?).toList with
+      | [st, ents] =>
+        let es ← getList (fun e => do
+          match (← e.getArr?).toList with
+          | [s, v] => return (← s.getStr?, ← f v)
+          | _ => throw "bad table entry") ents
+        return (← st.getNat?, es)
+      | _ => throw "bad table row") (← j.getObjVal? name)
+  let arows ← rows "action" (fun v => v.getInt?)
+  let grows ← rows "goto" (fun v => v.getNat?)
+  let n := (arows.map (·.1) ++ grows.map (·.1)).foldl max 0 + 1
+  let atab := symTable arows n
+  let gtab := symTable grows n
+  let dflt ← getList (fun r => do
+    match (← r.getArr?).toList with
+    | [st, a] => return (← st.getNat?, ← a.getInt?)
+    | _ => throw "bad defaulted row") (← j.getObjVal? "defaulted")
+  let dtab : Array (Option Int) := dflt.foldl (fun a r => if r.1 < a.size then a.set! r.1 (some r.2) else a) (Array.replicate n none)
+  let acts ← (← j.getObjVal? "actions").getObj?
+  let bodies ← acts.toList.mapM (fun (k, v) => do
+    match v with
+    | .arr ss => do return (k, some (← ss.toList.mapM stmt))
+    | _ => return (k, none))
+  let native ← getList (fun x => x.getStr?) (← j.getObjVal? "native")
+  let T : Tables := {
+    prods := prods.toArray
+    action := fun s sym => (atab[s]?.getD []).find? (·.1 == sym) |>.map (·.2)
+    goto := fun s sym => (gtab[s]?.getD []).find? (·.1 == sym) |>.map (·.2)
+    defaulted := fun s => (dtab[s]?.getD none)
+    start := ← (← j.getObjVal? "start").getStr? }
+  let A : Actions := {
+    body := fun f => match bodies.find? (·.1 == f) with | some (_, b) => b | none => none
+    native := fun f => native.contains f }
+  return { tables := T, actions := A }
+
+partial def jPy : PyVal → Json
+  | .none => .null
+  | .bool b => .bool b
+  | .int i => .num (Lean.JsonNumber.fromInt i)
+  | .str s => Json.mkObj [("s", .arr (s.map (fun c => (c.toNat : Json))).toArray)]
+  | .tuple xs => Json.mkObj [("t", .arr (xs.map jPy).toArray)]
+  | .list xs => Json.mkObj [("l", .arr (xs.map jPy).toArray)]
+  | .dict kvs => Json.mkObj [("d", .arr (kvs.map (fun kv => Json.arr #[jPy kv.1, jPy kv.2])).toArray)]
+
+def opParse (ld : Loaded) (j : Json) : Except String Json := do
+  let variant ← (← j.getObjVal? "variant").getStr?
+  let text ← Lx.textOf (← j.getObjVal? "text")
+  match parse (Lx.cfgOf variant) ld.tables ld.actions text with
+  | .modules ast => return Json.mkObj [("ast", jPy ast)]
+  | .lexerError l => return Json.mkObj [("error", .str "lexer"), ("line", l)]
+  | .parserError l => return Json.mkObj [("error", .str "parser"), ("line", l)]
+  | .other m => return Json.mkObj [("error", .str ("other: " ++ m))]
+end Pr
+
 def handle (j : Json) : Except String Json := do
   let op ← (← j.getObjVal? "op").getStr?
   match op with
@@ -549,24 +709,41 @@ def handle (j : Json) : Except String Json := do
   | "basetype" => Sx.opBasetype j
   | "defval" => Sx.opDefval j
   | "struct" => St.opStruct j
+  | "lex" => Lx.opLex j
   | "put2" => Wr.opPut2 j
   | _ => throw s!"unknown op {op}"
 
-partial def loop (hin hout : IO.FS.Stream) : IO Unit := do
+partial def loop (hin hout : IO.FS.Stream) (loaded : List (String × Pr.Loaded)) : IO Unit := do
   let line ← hin.getLine
   if line.isEmpty then return ()
-  let out := match Json.parse line with
-    | .error e => Json.mkObj [("driver_error", .str s!"json: {e}")]
-    | .ok j => match handle j with
-      | .error e => Json.mkObj [("driver_error", .str e)]
-      | .ok r => r
+  let mut loaded := loaded
+  let out ← match Json.parse line with
+    | .error e => pure (Json.mkObj [("driver_error", .str s!"json: {e}")])
+    | .ok j =>
+      match (j.getObjVal? "op").bind (·.getStr?) with
+      | .ok "tables" =>
+        match (do let k ← (← j.getObjVal? "key").getStr?; let l ← Pr.load j; pure (k, l) : Except String (String × Pr.Loaded)) with
+        | .ok (k, l) => do
+          loaded := (k, l) :: loaded.filter (·.1 != k)
+          pure (Json.mkObj [("loaded", .str k)])
+        | .error e => pure (Json.mkObj [("driver_error", .str e)])
+      | .ok "parse" =>
+        match (j.getObjVal? "key").bind (·.getStr?) with
+        | .ok k =>
+          match loaded.find? (·.1 == k) with
+          | some (_, l) => pure (match Pr.opParse l j with | .ok r => r | .error e => Json.mkObj [("driver_error", .str e)])
+          | none => pure (Json.mkObj [("driver_error", .str s!"tables {k} not loaded")])
+        | .error e => pure (Json.mkObj [("driver_error", .str e)])
+      | _ => pure (match handle j with
+        | .error e => Json.mkObj [("driver_error", .str e)]
+        | .ok r => r)
   hout.putStrLn out.compress
-  loop hin hout
+  loop hin hout loaded
 
 end Pysmi.Driver
 
 def main : IO Unit := do
   let hin ← IO.getStdin
   let hout ← IO.getStdout
-  Pysmi.Driver.loop hin hout
+  Pysmi.Driver.loop hin hout []
   hout.flush
